@@ -274,13 +274,21 @@ pub fn run_check(def: &CheckDef, cfg: &RunConfig) -> i32 {
 
     // needs: minimal observations
     let mut unmet: Vec<String> = Vec::new();
+    let mut notes: Vec<String> = Vec::new();
     let mut needs_report: Vec<(String, J)> = Vec::new();
     if cfg.cases_override.is_none() {
         for (name, min) in (def.needs)(cfg.tier) {
             let got = if name == "distinct_nontrivial" { a.nontrivial_keys.len() as u64 + a.distinct_extra } else { a.counters.get(name).copied().unwrap_or(0) };
             needs_report.push((name.to_string(), J::Obj(vec![("required".to_string(), J::Int(min as i64)), ("observed".to_string(), J::Int(got as i64))])));
             if got < min {
-                unmet.push(format!("{name}: observed {got} < required {min}"));
+                // Two kinds of minimum are advisory only: counts of hook events (they describe HOW the library computed
+                // its answers - a correct library that caches or short-cuts less must not make the run fail) and the
+                // number of bundled-model cases that finished within their wall-clock budget (machine load).
+                if name.starts_with("ev_") || name == "big_model_cases_completed" {
+                    notes.push(format!("{name}: observed {got} < expected {min}"));
+                } else {
+                    unmet.push(format!("{name}: observed {got} < required {min}"));
+                }
             }
         }
     }
@@ -303,6 +311,7 @@ pub fn run_check(def: &CheckDef, cfg: &RunConfig) -> i32 {
         ("observed".to_string(), J::Obj(observed)),
         ("minimum_observations".to_string(), J::Obj(needs_report)),
         ("unmet_needs".to_string(), J::arr_str(&unmet)),
+        ("coverage_notes".to_string(), J::arr_str(&notes)),
         ("known_findings_hit".to_string(), J::arr_str(&known_hits)),
         ("threads".to_string(), J::Int(cfg.threads as i64)),
     ]);
@@ -341,6 +350,9 @@ pub fn run_check(def: &CheckDef, cfg: &RunConfig) -> i32 {
     );
     let shown: Vec<String> = a.counters.iter().map(|(k, v)| format!("{k}={v}")).collect();
     println!("OBSERVED {}", shown.join(" "));
+    for n in &notes {
+        println!("COVERAGE-NOTE property={} {}", def.id, n);
+    }
     if new_violations > 0 {
         return 1;
     }
